@@ -26,6 +26,9 @@ type c14Plan struct {
 	// QueueSize of the channel's package queue (0 = 100): with 1 or 2 the reader is usually parked on the full
 	// queue when the failure arrives.
 	QueueSize int `json:"queue_size,omitempty"`
+	// FailDelayMs: the failure happens that long after the last delivered byte (the reader and the consumer are
+	// already waiting, the read timeout is running).
+	FailDelayMs int `json:"fail_delay_ms,omitempty"`
 	// write failures: request of ReqLen body bytes, the J-th transport write accepts Accept bytes and fails
 	ReqLen int `json:"req_len,omitempty"`
 	J      int `json:"j,omitempty"`
@@ -127,6 +130,9 @@ func (c14) Gen(r *Rand, idx int, tier string) interface{} {
 			if idx%4 == 3 {
 				p.QueueSize = 1 + (idx/4)%2
 			}
+			if idx%6 == 1 && p.Kind != "eof-with-data" && p.Kind != "transient" {
+				p.FailDelayMs = []int{500, 1000, 2000, 10000}[(idx/6)%4] * p.ReadTimeoutS / 2
+			}
 			return p
 		}
 		i -= n
@@ -202,7 +208,7 @@ func (c14) Run(plan interface{}, schedSeed uint64, replay []simrt.Choice, lenien
 	if p.Kind == "transient" {
 		return c14RunTransient(p, v, cfg, base, pk, wire, drain)
 	}
-	got := runResp(cfg, respDelivery{Packets: pk, TermAt: p.K, TermKind: term, TermWithData: withData, Async: p.Async},
+	got := runResp(cfg, respDelivery{Packets: pk, TermAt: p.K, TermKind: term, TermWithData: withData, Async: p.Async, TermDelay: time.Duration(p.FailDelayMs) * time.Millisecond},
 		respClient{QueueSize: c14Queue(p), ReadTimeoutS: p.ReadTimeoutS, DrainFor: drain, ReadSizes: c14ReadSizes(p.ReadSize, len(wire)), MaxErrs: 10})
 	out := got.Out
 	StdOutcome(v, base.Out)
@@ -321,7 +327,7 @@ func (c14) Run(plan interface{}, schedSeed uint64, replay []simrt.Choice, lenien
 			order := "package was queued before the error"
 			cfg2 := cfg
 			cfg2.Replay, cfg2.Lenient, cfg2.KeepLog = out.Tape, false, true
-			again := runResp(cfg2, respDelivery{Packets: pk, TermAt: p.K, TermKind: term, TermWithData: withData, Async: p.Async},
+			again := runResp(cfg2, respDelivery{Packets: pk, TermAt: p.K, TermKind: term, TermWithData: withData, Async: p.Async, TermDelay: time.Duration(p.FailDelayMs) * time.Millisecond},
 				respClient{QueueSize: c14Queue(p), ReadTimeoutS: p.ReadTimeoutS, DrainFor: drain, ReadSizes: c14ReadSizes(p.ReadSize, len(wire)), MaxErrs: 10})
 			pkgSends, errSend := 0, -1
 			for _, e := range again.Out.Log {
